@@ -497,9 +497,18 @@ func uniq(xs []int, lo, hi int) []int {
 	return out
 }
 
+// chance is true with a probability of roughly pct percent (pct <= 50).
+// rapid's integer generators are biased towards small values (about half of
+// the draws of IntRange(0,99) are uniform, the rest are small), so the rare
+// branch is mapped to the LARGE values and the threshold is doubled; shrinking
+// then moves towards the common branch.
+func chance(t *rapid.T, label string, pct int) bool {
+	return rapid.IntRange(0, 99).Draw(t, label) >= 100-2*pct
+}
+
 // drawLen: mostly a valid length (>= min), sometimes a below-minimum one.
 func drawLen(t *rapid.T, label string, min, pctInvalid int) int {
-	if rapid.IntRange(0, 99).Draw(t, label+"Bad") < pctInvalid {
+	if chance(t, label+"Bad", pctInvalid) {
 		return rapid.SampledFrom(uniq([]int{0, min - 1, min / 2, 1}, 0, min-1)).Draw(t, label)
 	}
 	return rapid.SampledFrom(uniq([]int{min, min, min + 1, 2 * min, 16, 24, 32, 48, 64, 100}, min, 1<<20)).Draw(t, label)
@@ -517,14 +526,14 @@ func requestSizes(m mechSpec, gm bool) (valid, over []int) {
 func drawOp(t *rapid.T, m mechSpec, gm bool, pReseed int) opT {
 	var o opT
 	valid, over := requestSizes(m, gm)
-	if rapid.IntRange(0, 99).Draw(t, "kind") < pReseed {
+	if chance(t, "reseed", pReseed) {
 		o.K = "reseed"
-		o.N = drawLen(t, "entropy", m.minEntropyReseed(gm), 25)
+		o.N = drawLen(t, "entropy", m.minEntropyReseed(gm), 20)
 	} else {
 		o.K = "gen"
-		if rapid.IntRange(0, 99).Draw(t, "over") < 12 {
+		if chance(t, "over", 8) {
 			o.N = rapid.SampledFrom(over).Draw(t, "n")
-		} else if rapid.IntRange(0, 99).Draw(t, "big") < 15 {
+		} else if chance(t, "big", 12) {
 			o.N = rapid.SampledFrom(valid).Draw(t, "n")
 		} else {
 			// bias to the small sizes so that 30-step histories stay cheap
@@ -532,7 +541,7 @@ func drawOp(t *rapid.T, m mechSpec, gm bool, pReseed int) opT {
 			o.N = rapid.SampledFrom(small).Draw(t, "n")
 		}
 	}
-	if rapid.IntRange(0, 99).Draw(t, "hasAddl") < 45 {
+	if rapid.Bool().Draw(t, "hasAddl") {
 		o.A = rapid.SampledFrom([]int{1, 16, 32, 33, 55, 64, 111, 200}).Draw(t, "addl")
 	} else {
 		o.E = rapid.Bool().Draw(t, "emptyNotNil")
@@ -547,15 +556,13 @@ func genSeq(kind string) func(*rapid.T) seqCase {
 		gm := rapid.Bool().Draw(t, "gm")
 		c := seqCase{Mech: m.Name, GM: gm, Level: "test"}
 		c.Wrap = rapid.Bool().Draw(t, "wrap")
-		c.Ent = drawLen(t, "ent", m.minEntropyInstantiate(gm), 6)
-		c.Nonce = drawLen(t, "nonce", m.minNonce(gm), 6)
+		c.Ent = drawLen(t, "ent", m.minEntropyInstantiate(gm), 3)
+		c.Nonce = drawLen(t, "nonce", m.minNonce(gm), 3)
 		c.Pers = rapid.SampledFrom([]int{0, 0, 1, 16, 32, 55, 100}).Draw(t, "pers")
 		c.Seed = rapid.Uint64().Draw(t, "seed")
-		n := rapid.IntRange(0, 30).Draw(t, "steps")
-		if rapid.IntRange(0, 9).Draw(t, "long") < 6 {
-			n = rapid.IntRange(20, 30).Draw(t, "stepsLong")
-		}
-		pReseed := rapid.SampledFrom([]int{8, 15, 30}).Draw(t, "pReseed")
+		// mostly long histories (the interval is 8): 30 - small
+		n := 30 - rapid.IntRange(0, 30).Draw(t, "stepsLess")
+		pReseed := rapid.SampledFrom([]int{6, 3, 12, 25}).Draw(t, "pReseed")
 		for i := 0; i < n; i++ {
 			c.Ops = append(c.Ops, drawOp(t, m, gm, pReseed))
 		}
